@@ -85,6 +85,12 @@ def specs(ctx):
         s["kwargs"]["maxiter"] = max(s["kwargs"].get("maxiter", 10), 3)
         out.append(s)
     out += corpus.scripted_specs(rng, exhaustive_len=1, n_random=ctx.pick(150, 1500))   # incl. line-search failures + resets
+    # a run stopped by its target, restarted with a smaller memory (the restart returns at once: the target is met)
+    for i in range(ctx.pick(40, 400)):
+        out.append({"family": ["qp", "qp4", "qpsoft", "rosenbrock"][i % 4], "n": int(rng.integers(2, 8)), "pseed": int(rng.integers(1 << 30)),
+                    "jac": "callable", "cb": "never", "ftarget": ["float", float(rng.choice([-0.5, -0.8, -0.95]))],
+                    "kwargs": {"maxcor": int(rng.choice([3, 5, 10])), "ftol": 0.0, "maxiter": 40, "maxfun": 400, "maxls": 20},
+                    "gtol": ["float", 1e-10], "chain": [{"maxcor": int(rng.choice([1, 2]))}, {"maxcor": 1}][: 1 + i % 2]})
     # starved line searches on non-convex objectives in boxes: rejected updates followed by failed searches and memory
     # resets, then accepted steps (every state reported by the callback is judged)
     for i in range(ctx.pick(400, 4000)):
